@@ -110,6 +110,16 @@ pub fn futex_wake_all(word: &AtomicU32) {
     }
 }
 
+/// mmap + munmap of one anonymous page (pads a thread's own mmap count before an injected failure)
+pub fn dummy_map() {
+    unsafe {
+        let p = syscall!(MMAP, 0usize, 4096usize, 3usize, 0x22usize, usize::MAX, 0usize);
+        if (p as isize) > 0 {
+            syscall!(MUNMAP, p, 4096usize);
+        }
+    }
+}
+
 /// A marker in the strace log: `munmap(0x1, tag)` fails with EINVAL and changes nothing.
 pub fn marker(tag: usize) {
     unsafe {
